@@ -235,7 +235,18 @@ func (t *Transport) decodeFromWithCompression(rd io.Reader) (int, []byte, error)
 	if err := frd.Close(); err != nil {
 		return 0, nil, err
 	}
+	if err := drain(ird); err != nil {
+		return 0, nil, err
+	}
 	return ird.ReadBytes, m, nil
+}
+
+// drain reads a WebSocket message to its end. The inflater stops at the end of the DEFLATE stream;
+// a back-end whose peer sent the message in several frames (the last one may be empty) refuses to
+// hand out the next message until the previous one has been read to completion.
+func drain(rd io.Reader) error {
+	_, err := io.Copy(io.Discard, rd)
+	return err
 }
 
 func (t *Transport) decodeFromWithContextTakeover(rd io.Reader) (int, []byte, error) {
@@ -253,6 +264,9 @@ func (t *Transport) decodeFromWithContextTakeover(rd io.Reader) (int, []byte, er
 		t.readWindowBuf.Next(t.readWindowBuf.Len() - t.compressConfig.WindowSize())
 	}
 	if err := frd.Close(); err != nil {
+		return 0, nil, err
+	}
+	if err := drain(ird); err != nil {
 		return 0, nil, err
 	}
 	return ird.ReadBytes, m, nil
